@@ -15,7 +15,12 @@ disk with the reference after every step:
   refactor    Rename of a local / ImportOrganizer.organize_imports / ExtractVariable inside the file:
               bytes == reference-encode(the text rope computed); every untouched line byte-identical;
               final-newline state kept; then undo / redo exact
+              (all three refactorings are applied one after the other, the one named in the spec first)
   reopen      project.close(); Project(root); history.undo() / redo()   -> exact bytes
+  create      root.create_file(); File.write(text) -> reads back equal and python's decoding of the bytes is text
+A violation ends the case (later steps would only show its consequences).  Keys: "<step class>|<diagnosis>", or
+"enc|hdr=<construct>" when the file carries one of the unusual-but-legal header constructs of `_hazards` and the
+failure is at the codec level.
 An audit-hook write tracer confirms that each step wrote nothing but that file (and rope's own data folder).
 """
 import itertools
@@ -24,25 +29,28 @@ import sys
 from vlib import core, refcodec
 
 ID = "C16"
+READY = True
 LEVEL = "exploration"
 RULE = ("random files over the product encoding variant (no cookie / utf-8 cookie / BOM / BOM+cookie / utf-8-sig "
         "cookie with and without BOM / latin-1 / cp1252 / koi8-r / shift_jis / iso-8859-15, several spellings) x "
         "newline {LF,CRLF,CR} x final newline {yes,no} enumerated cyclically (66 combinations), with cookie form "
-        "(emacs, vim, plain, indented, prose, eol-suffix), cookie position (line 1, line 2 after shebang / comment "
-        "/ blank line), text class (ascii, latin1, bmp, astral, combining; optional str.splitlines separators "
-        "FF/FS/GS/RS/NEL/LS/PS and decoy cookies after line 2) and file kind (python module / free text) drawn at "
-        "random; non-trivial = the file is not plain ASCII+LF+final-newline+no-cookie AND the edit step changed "
-        "the bytes; distinct = (encoding variant, cookie form, cookie position, newline, final newline, effective "
-        "text class, kind, edit method, refactoring kind)")
+        "(emacs, vim, plain, indented, tab, prose, eol-suffix), cookie position (line 1, line 2 after shebang / "
+        "comment / blank line), text class (ascii, latin1, bmp, astral, combining; optionally the str.splitlines "
+        "separators FF/FS/GS/RS/NEL/LS/PS inside comments and strings; optionally a cookie-shaped decoy comment "
+        "after line 2) and file kind (python module 70% / free text) drawn at random; at most one unusual header "
+        "construct per file; non-trivial = the file is not plain ASCII+LF+final-newline+no-cookie AND the edit step "
+        "changed the bytes AND the whole scenario ran; distinct = (encoding variant, cookie form, cookie position, "
+        "newline, final newline, effective text class, kind, edit method, refactorings that took effect)")
 ASSUMPTIONS = ["files have one consistent newline convention and at least one line terminator; contents are "
                "encodable in the declared encoding and never contain a lone CR",
                "a cookie on line 2 is only generated after a comment or blank first line (what the interpreter "
                "itself honours)",
                "edits never touch the first two lines (the declared encoding is not part of the edit)",
                "identifiers use NFKC-stable characters only"]
-BUDGET = {"quick": (3000, 75), "thorough": (100000, 840)}
+BUDGET = {"quick": (20000, 60), "thorough": (400000, 780)}
 EXHAUSTIVE = {}
-REQUIRE = {"bytes_compared": 5000, "edit_effective": 500, "undo_exact_checked": 500, "redo_exact_checked": 500,
+REQUIRE = {"bytes_compared": 5000, "create_checked": 300, "anchor:unicode_to_file_data": 1000,
+           "anchor:file_data_to_unicode": 1000, "anchor:read_str_coding": 1000, "edit_effective": 500, "undo_exact_checked": 500, "redo_exact_checked": 500,
            "reopen_undo_checked": 300, "refactor_effective": 200, "refactor:rename": 50, "refactor:organize": 50,
            "refactor:extract": 50, "audit_events": 1000, "nl:CRLF": 100, "nl:CR": 100, "final:no": 100,
            "nonascii_files": 500}
@@ -148,6 +156,8 @@ def _hazards(spec):
         hz.append("eol-suffix")
     if spec["encv"] == "sig-cookie-nobom":
         hz.append("sig-cookie-without-bom")
+    if spec["encv"] == "sig-cookie+bom":
+        hz.append("sig-cookie-with-bom")
     if cookie and not spec["eol_suffix"] and spec["form"] == "prose":
         hz.append("prose")
     if cookie and spec["nl"] == "CR" and spec["pos"] == "line2-blank":
@@ -155,6 +165,22 @@ def _hazards(spec):
     if spec["nl"] == "CR" and spec["decoy"]:
         hz.append("cr-decoy")
     return hz
+
+
+HAZARD_WHAT = {
+    "eol-suffix": "cookie with an emacs end-of-line suffix (utf-8-unix, latin-1-dos ...), which the interpreter "
+                  "normalises, is looked up verbatim: wrong decoding on read / LookupError on write",
+    "sig-cookie-without-bom": "file with cookie utf-8-sig and no BOM (python reads it as utf-8) gets a BOM added by "
+                              "every write",
+    "sig-cookie-with-bom": "cookie utf-8-sig on line 1: rope writes BOM+text but the BOM hides the cookie from "
+                           "rope's reader, so text written to a new file reads back with a leading U+FEFF",
+    "prose": "cookie line containing the word 'coding' before the actual 'coding:' declaration is not recognised "
+             "(_find_coding looks at the first 'coding', not at the regex match)",
+    "cr-blank-line1": "CR-only file with a blank first line: cookie on line 2 not seen (read_str_coding splits "
+                      "lines on LF only) - wrong decoding on read, UTF-8 re-encoding on write",
+    "cr-decoy": "CR-only file: a cookie-shaped comment after line 2 is taken for the declaration when line 1 is a "
+                "comment (read_str_coding splits lines on LF only)",
+}
 
 
 def _one_hazard(spec):
@@ -167,9 +193,11 @@ def _one_hazard(spec):
             spec["pos"] = "line2-comment"
         elif h == "cr-decoy":
             spec["decoy"] = False
-        elif h == "sig-cookie-without-bom":      # only behind eol-suffix, which sig variants never have
-            pass
+        else:      # the sig variants come from the base product and only ever stand first (no eol-suffix)
+            raise AssertionError(spec)
     assert len(_hazards(spec)) <= 1, spec
+    if hz:
+        spec["seps"] = False     # separator characters are a hazard of their own (text level)
 
 
 # ------------------------------------------------------------------------------------------ file generator
@@ -279,13 +307,14 @@ class Gen:
         rnd.shuffle(imports)
         L.extend(imports[: rnd.randint(3, 6)])
         L.append("")
-        if self.spec["decoy"]:
-            while len(L) < 2:
-                L.append("")
-            L.append(self.decoy())
         L.append("# " + self.phrase())
         const = self.ident("CONST")
         L.append("%s = %s%s%s" % (const, q, self.strlit(q), q))
+        if self.spec["decoy"]:
+            # after two statements that neither the import tidying nor the generated edits remove, so the
+            # decoy can never become line 1 or 2
+            L.append("%s = %s" % (self.ident("ALIAS"), const))
+            L.append(self.decoy())
         L.append("")
         for _ in range(rnd.randint(0, 2)):
             fn = self.ident("fn")
@@ -413,8 +442,11 @@ def make_splice(g, text, info, kind):
             if start > len(text):
                 start = len(text)
             r = rnd.random()
-            if r < 0.05:
-                out = text[:start] + g.phrase()      # collapse the rest to one unterminated line
+            if r < 0.08:
+                # collapse the rest to one unterminated line; without a declaration on lines 1-2 the whole
+                # file (no terminator left: the convention then lives only in rope's memory / saved history)
+                keep = 0 if (info["header_lines"] == 0 and r < 0.05) else start
+                out = text[:keep] + g.phrase()
                 label = "collapse"
             else:
                 a = rnd.randint(start, len(text))
@@ -435,9 +467,26 @@ def make_splice(g, text, info, kind):
 
 
 # ------------------------------------------------------------------------------------------ worker
+_ANCHOR_CALLS = {}
+
+
 def setup_worker():
+    """Install the audit hook once and put counting wrappers on rope's codec anchors (reach evidence)."""
+    import functools
     from vlib import audit
     audit.install()
+    from rope.base import fscommands
+
+    def counted(name):
+        orig = getattr(fscommands, name)
+
+        @functools.wraps(orig)
+        def wrapper(*a, **kw):
+            _ANCHOR_CALLS[name] = _ANCHOR_CALLS.get(name, 0) + 1
+            return orig(*a, **kw)
+        setattr(fscommands, name, wrapper)
+    for n in ("unicode_to_file_data", "file_data_to_unicode", "read_str_coding"):
+        counted(n)
 
 
 class Stop(Exception):
@@ -463,10 +512,15 @@ class Case:
         spec = self.spec
         detail.update(file=self.fname, encv=spec["encv"], nl=spec["nl"], final=spec["final"],
                       original_bytes=repr(self.orig[:600]))
-        cls = _clause_class(clause, label)
-        key = f"{cls}|{label}"
-        if label.startswith(_ENC_LABELS):
-            key += "|hdr=" + ("+".join(_hazards(spec)) or "std")
+        hz = _hazards(spec)
+        if hz and label.startswith(_ENC_LABELS):
+            # an unusual-but-legal header construct is present and the failure is at the codec level: the
+            # construct is the mechanism; where and how it surfaces (read / write / exception) is in the detail
+            key = "enc|hdr=" + hz[0]
+            what = HAZARD_WHAT[hz[0]] + " [first seen as: " + what[:120] + "]"
+        else:
+            key = f"{_clause_class(clause, label)}|{label}"
+        detail["label"] = label
         self.res.violation(key, what, clause=clause, **detail)
         raise Stop()
 
@@ -578,10 +632,13 @@ class Case:
         if new_text is None:
             res.outcome("no-edit-generated")
             return
-        method = g.rnd.choice(["ChangeContents", "File.write", "File.write-read-object"])
+        method = g.rnd.choice(["ChangeContents", "ChangeContents-old-given", "File.write", "File.write-read-object"])
         expected = refcodec.encode_like(dec, new_text)
         if method == "ChangeContents":
             self.watched("edit", self.project.do, change.ChangeContents(self.fresh_file(), prefix + new_text))
+        elif method == "ChangeContents-old-given":
+            self.watched("edit", self.project.do,
+                         change.ChangeContents(self.fresh_file(), prefix + new_text, old_contents=rtext))
         elif method == "File.write":
             self.watched("edit", self.fresh_file().write, prefix + new_text)
         else:
@@ -604,14 +661,22 @@ class Case:
         res.ev("redo_exact_checked")
         before_last, after_last = data, expected
         cur_text, cur = new_text, expected
-        rkind = "-"
+        rkinds = []
 
-        # -- a real refactoring inside the file
+        # -- real refactorings inside the file (cumulative; the one of the spec first)
         if spec["kind"] == "py":
-            rkind = spec["op"]
-            done = self.refactor(rkind, g, info, dec, cur_text, cur, prefix)
-            if done is not None:
-                before_last, after_last = cur, done
+            order = ["rename", "organize", "extract"]
+            k = order.index(spec["op"])
+            for rkind in order[k:] + order[:k]:
+                done = self.refactor(rkind, g, info, dec, cur_text, cur, prefix)
+                if done is not None:
+                    before_last, after_last = cur, done[0]
+                    cur, cur_text = done
+                    rkinds.append(rkind)
+                    if rkind == "rename":
+                        info["extract_expr"] = info["extract_expr"].replace(info["local"], info["newlocal"])
+                        info["local"] = info["newlocal"]
+        rkind = "+".join(rkinds) or "-"
 
         # -- close, reopen, undo, redo
         self.rope("close", self.project.close)
@@ -622,6 +687,9 @@ class Case:
         self.watched("reopen-redo", lambda: self.project.history.redo())
         self.expect_bytes("reopen-redo", after_last, dec, "redo after close/reopen")
         res.ev("reopen_redo_checked")
+
+        # -- a new file created and written through rope reads back equal, and means what python reads
+        self.create_clause(dec, cur_text)
         self.rope("close", self.project.close)
         self.project = None
 
@@ -632,9 +700,41 @@ class Case:
         res.sample({"spec": spec, "file_bytes": repr(data[:400]), "edit": elabel, "method": method,
                     "after_edit": repr(expected[:400]), "refactoring": rkind, "reference": dec.describe()})
 
+    def create_clause(self, dec, text):
+        res = self.res
+        name = "created.py" if self.fname.endswith(".py") else "created.txt"
+        keep = self.fname
+        newf = self.rope("create", self.project.root.create_file, name)
+        self.fname = name
+        try:
+            self.watched("create-write", newf.write, text)
+            back = self.rope("create-readback", self.project.get_file(name).read)
+            res.evals()
+            if back != text:
+                label = ("bom-char-added" if back == BOMC + text else
+                         _read_label(refcodec.strip_bom_char(back)[0], self.disk(), dec))
+                self.violation("create-readback", label, "text written to a new file does not read back equal",
+                               written=text[:300], read=back[:300], bytes_on_disk=repr(self.disk()[:300]))
+            res.evals()
+            try:
+                there = refcodec.decode(self.disk())
+            except refcodec.RefError as e:
+                self.violation("create-write", "bytes-outside-reference:" + str(e).split(":")[0],
+                               "a new file written through rope is not decodable by the reference",
+                               written=text[:300], bytes_on_disk=repr(self.disk()[:300]))
+            if there.text != text:
+                self.violation("create-write", _read_label(text, self.disk(), there).replace(
+                               "declared-encoding-ignored", "written-in-undeclared-encoding"),
+                               "a new file written through rope does not hold the written text for python",
+                               written=text[:300], python_reads=there.text[:300],
+                               bytes_on_disk=repr(self.disk()[:300]))
+            res.ev("create_checked")
+        finally:
+            self.fname = keep
+
     # ---- refactorings
     def refactor(self, kind, g, info, dec, cur_text, cur, prefix):
-        """Returns the bytes after the refactoring (None if refused / nothing to do)."""
+        """Returns (bytes, text) after the refactoring (None if refused / nothing to do)."""
         from rope.base import exceptions
         res = self.res
         clause = "refactor:" + kind
@@ -662,9 +762,6 @@ class Case:
         except exceptions.RopeError as e:
             res.outcome("refactoring-refused:%s:%s" % (kind, type(e).__name__))
             res.ev("refactor_refused")
-            import os
-            if os.environ.get("C16_DEBUG_REFUSED"):
-                print("REFUSED", self.spec, repr(e)[:300], repr(cur_text[:200]), file=sys.__stderr__)
             return None
         except Exception as e:
             self.violation(clause, "exc:" + core.exc_sig(e),
@@ -687,8 +784,9 @@ class Case:
             res.outcome("refactoring-nothing-to-do")
             return None
         if not refcodec.encodable(new_body, dec.codec) or "\r" in new_body:
-            self.violation(clause, "computed-text-not-encodable",
-                           f"{kind} computed a text the file's encoding cannot hold", computed=new_body[:400])
+            self.violation(clause, "computed-text-has-cr" if "\r" in new_body else "computed-text-not-encodable",
+                           f"{kind} computed a text with CR / that the file's encoding cannot hold",
+                           computed=new_body[:400])
         expected = refcodec.encode_like(dec, new_body)
         self.watched(clause, self.project.do, changes)
         self.expect_bytes(clause, expected, dec, f"{kind}: bytes vs reference-encode(text rope computed)")
@@ -707,7 +805,7 @@ class Case:
             except ValueError:
                 txt = l.decode(refcodec._norm_codec(dec.codec), "replace")
                 why = ("final-line" if i == len(old_lines) - 1 and not l.endswith(refcodec.NL_BYTES[dec.newline])
-                       else "line-with-separator-char" if any(s in txt for s in SEPS) else "other")
+                       else "file-with-separator-char" if any(s in cur_text for s in SEPS) else "other")
                 self.violation(clause, "untouched-line-changed:" + why,
                                f"{kind} changed or dropped a line outside the edit",
                                line=repr(l), before=repr(cur[:800]), after=repr(after[:800]))
@@ -723,22 +821,25 @@ class Case:
         self.expect_bytes(clause + "-undo", cur, dec, f"undo of {kind}")
         self.watched(clause + "-redo", self.project.history.redo)
         self.expect_bytes(clause + "-redo", after, dec, f"redo of {kind}")
-        return after
+        return after, new_body
 
 
-_ENC_LABELS = ("declared-encoding", "reencoded", "bom-", "undecodable", "non-ascii-text-differs", "text-differs",
-               "exc:LookupError", "exc:Unicode", "computed-text-not-encodable")
-_TEXT_LEVEL = ("untouched-line-changed", "computed-text-drops-bom", "final-newline-", "unexpected-change-shape", "computed-text-not-encodable")
+_ENC_LABELS = ("declared-encoding", "written-in-undeclared-encoding", "reencoded", "bom-", "undecodable",
+               "non-ascii-text-differs", "text-differs", "bytes-outside-reference", "exc:LookupError", "exc:Unicode",
+               "computed-text-not-encodable")
+_TEXT_LEVEL = ("untouched-line-changed", "computed-text-has-cr", "computed-text-drops-bom", "final-newline-", "unexpected-change-shape", "computed-text-not-encodable")
 
 
 def _clause_class(clause, label):
     """Steps that go through the same write path share a key prefix."""
+    if label.startswith("exc:"):
+        return "exc"       # the signature names the raising rope function; the step does not matter
     if clause.startswith("refactor:"):
         if clause.endswith("-undo"):
             return "undo"
         if clause.endswith("-redo"):
             return "redo"
-        if label.startswith(_TEXT_LEVEL) or label.startswith("exc:"):
+        if label.startswith(_TEXT_LEVEL):
             return clause
         return "write"
     return {"noop": "write", "edit": "write", "noop-undo": "undo"}.get(clause, clause)
@@ -792,6 +893,16 @@ def _read_label(body, data, dec):
 
 def run_case(spec):
     res = core.Result()
+    calls0 = dict(_ANCHOR_CALLS)
+    try:
+        return _run_case(spec, res)
+    finally:
+        for k, v in _ANCHOR_CALLS.items():
+            if v - calls0.get(k, 0):
+                res.ev("anchor:" + k, v - calls0.get(k, 0))
+
+
+def _run_case(spec, res):
     with core.Scratch() as tmp:
         case = Case(spec, res, tmp + "/p")
         try:
